@@ -53,6 +53,8 @@ impl K {
     pub fn read_only(&self, ok: bool) -> bool {
         match self {
             K::Shim(OpKind::Load) | K::Shim(OpKind::Fence) | K::Shim(OpKind::Yield) | K::Shim(OpKind::Sleep) => true,
+            // taking and releasing a lock changes nothing another thread can observe afterwards
+            K::Shim(OpKind::MutexLock) | K::Shim(OpKind::MutexUnlock) | K::Shim(OpKind::CvNotifyAll) => true,
             K::Shim(OpKind::Cas) | K::Shim(OpKind::MutexTryLock) => !ok,
             K::Call | K::TaskWait => true,
             _ => false,
@@ -102,10 +104,17 @@ pub struct View<'a> {
     pub cont: Option<usize>,
     pub last: Option<usize>,
     pub nthreads: usize,
+    /// (thread, pending op kind, name of the call the thread is in or "") for every enabled thread
+    pub pend: &'a [(usize, K, String)],
 }
 
 pub trait Source: Send {
     fn pick(&mut self, v: &View) -> usize;
+    /// (thread, op bound) while one thread is being run alone with all others frozen
+    fn solo(&self) -> Option<(usize, usize)> {
+        None
+    }
+    fn solo_abort(&mut self) {}
 }
 
 /// Default continuation policy: keep running the same thread, otherwise round-robin
@@ -138,6 +147,7 @@ pub struct Th {
     pub in_call: Option<Value>,
     pub call_ops: usize,
     pub retrying: bool,
+    pub solo_mark: Option<usize>,
 }
 
 pub struct St {
@@ -310,6 +320,7 @@ impl Rt {
                 in_call: None,
                 call_ops: 0,
                 retrying: false,
+                solo_mark: None,
             })
             .collect();
         st.held.clear();
@@ -388,20 +399,50 @@ impl Rt {
             }
             _ => None,
         };
+        let pend: Vec<(usize, K, String)> = enabled
+            .iter()
+            .map(|&t| {
+                let th = &st.th[t];
+                (
+                    t,
+                    th.pend.map(|p| p.kind).unwrap_or(K::Call),
+                    th.in_call.as_ref().and_then(|c| c["api"].as_str()).unwrap_or("").to_string(),
+                )
+            })
+            .collect();
         let view = View {
             step: st.step_base + st.steps.len(),
             enabled: &enabled,
             cont,
             last,
             nthreads: st.th.len(),
+            pend: &pend,
         };
         let mut src = st.source.take();
+        // a thread that is run alone must finish its call within the bound
+        if let Some(s) = src.as_mut() {
+            if let Some((t, bound)) = s.solo() {
+                if st.th[t].call_ops > bound {
+                    let api = st.th[t].in_call.as_ref().and_then(|c| c["api"].as_str()).unwrap_or("").to_string();
+                    st.api.push(json!({"e":"solo","t":t,"api":api,"nops":st.th[t].call_ops,"bound":bound,"done":false}));
+                    st.th[t].solo_mark = None;
+                    s.solo_abort();
+                }
+            }
+        }
         let mut c = match src.as_mut() {
             Some(s) => s.pick(&view),
             None => default_pick(&view),
         };
         if !enabled.contains(&c) {
             c = default_pick(&view);
+        }
+        if let Some(s) = src.as_ref() {
+            if let Some((t, bound)) = s.solo() {
+                if st.th[t].solo_mark.is_none() {
+                    st.th[t].solo_mark = Some(bound);
+                }
+            }
         }
         st.source = src;
         st.steps.push(StepInfo { chosen: c, enabled: enabled.clone(), cont, spin });
